@@ -760,14 +760,29 @@ pub fn gen_scenario(rng: &mut Rng, profile: Profile, tier: Tier) -> CursorScn {
         Profile::Mixed => 16,
         _ => 64,
     };
-    let nev = match rng.below(20) {
+    let mut nev = match rng.below(20) {
         0..=2 => rng.usize_in(1, 2),
         3..=9 => rng.usize_in(3, 6),
         10..=15 => rng.usize_in(7, 16),
         _ => rng.usize_in(1, max_events),
     }
     .min(max_events);
+    // rare long histories: counters, caches and fast paths that only engage after many queries
+    match profile {
+        Profile::Mixed => {
+            if rng.chance(1, 2000) {
+                nev = rng.usize_in(60, 250);
+            }
+        }
+        _ => {
+            if rng.chance(1, 100) {
+                nev = rng.usize_in(100, 1500);
+            }
+        }
+    }
     let restart_rate = *rng.pick(&[0u64, 0, 1, 2, 5]);
+    // bursts of the same argument repeated many times
+    let burst_rate = *rng.pick(&[0u64, 0, 0, 1, 4]);
     let mut prev: Vec<Option<f64>> = vec![None; clients.len()];
     let mut queued: Vec<usize> = vec![0; clients.len()];
     let mut runmax: Vec<Option<f64>> = vec![None; clients.len()];
@@ -787,6 +802,12 @@ pub fn gen_scenario(rng: &mut Rng, profile: Profile, tier: Tier) -> CursorScn {
                 let x = gen_query(rng, e, prev[c], &weights[c]);
                 prev[c] = Some(x);
                 events.push(Ev::Query { c, x });
+                if profile != Profile::Mixed && rng.below(64) < burst_rate {
+                    let k = *rng.pick(&[1usize, 2, 3, 9, 70, 300]);
+                    for _ in 0..k {
+                        events.push(Ev::Query { c, x });
+                    }
+                }
             }
             ClientKind::Stream => {
                 // Feed a burst, then pull some (the scheduler decides how far behind the consumer is).
